@@ -207,8 +207,9 @@ def e1_part(tier, seed):
 
     hs = [(f"c01_{v}", gen.entry_guard_module(v), dict(family="entry guards", variant=v))
           for v in ("kwonly_literal", "kwonly_dependent", "positional_mix", "nested_combinators", "same_parameters_other_bound", "kwonly_only")]
-    from props.c11 import literal_mixed_modules, tuple_element_modules
+    from props.c11 import literal_mixed_modules, literal_union_modules, tuple_element_modules
     hs += [(f"c01_{n_}", src_, dict(meta_)) for n_, src_, meta_ in literal_mixed_modules()]
+    hs += [(f"c01_{n_}", src_, dict(meta_)) for n_, src_, meta_ in literal_union_modules()]
     hs += [(f"c01_{n_}", src_, dict(meta_, family="value-dependent element types of tuple[...]")) for n_, src_, meta_ in tuple_element_modules()]
     code = xhrun.main(PID, tier, seed, hs, bounds=dict(values="int unbounded, str len <= 2"), rule="see symx part", mod=None)
     with open(os.path.join(runner.EVID, f"{PID}.json")) as fh:
